@@ -77,12 +77,93 @@ def benign_variants():
             ("extra-override", extra_override, ["C02", "C07", "C04"]), ("new-helper", new_helper_fn, ["C11", "C12"])]
 
 
+def fix_regressions():
+    """[(commit, subject, property, [fixed keys])] from /repo's `fix:` commits joined with known_findings.json (status fixed)."""
+    kf = json.load(open(os.path.join(VERIF, "known_findings.json")))["findings"]
+    log = subprocess.run(["git", "-C", REPO, "log", "--format=%h %s"], stdout=subprocess.PIPE, text=True).stdout.splitlines()
+    out = []
+    for line in log:
+        h, subj = line.split(" ", 1)
+        if not subj.startswith("fix:"):
+            continue
+        by_prop = {}
+        for f in kf:
+            c = f.get("commit") or ""
+            if f["status"] == "fixed" and c and (h.startswith(c) or c.startswith(h)):
+                by_prop.setdefault(f["property"], []).append(f["key"])
+        for pid, keys in sorted(by_prop.items()):
+            out.append((h, subj, pid, keys))
+        if not by_prop:
+            out.append((h, subj, None, []))
+    return out
+
+
+def later_fixes(h):
+    """`fix:` commits newer than h, newest first"""
+    out = []
+    for line in subprocess.run(["git", "-C", REPO, "log", "--format=%h %s"], stdout=subprocess.PIPE, text=True).stdout.splitlines():
+        h2, subj = line.split(" ", 1)
+        if h2 == h:
+            break
+        if subj.startswith("fix:"):
+            out.append(h2)
+    return out
+
+
 def main(args):
     seeds_dir = os.path.join(VERIF, "seeded")
     want = set(args)
     results = []
     ok_all = True
-    for name in sorted(os.listdir(seeds_dir)):
+    if not want or "regress" in want:
+        for h, subj, pid, keys in fix_regressions():
+            name = f"regress:{h}" + (f":{pid}" if pid else "")
+            if pid is None:
+                results.append((name, "skip", f"`{subj}`: no fixed entry in known_findings.json names this commit"))
+                continue
+            repo = make_copy()
+            try:
+                def revert(commit):
+                    diff = subprocess.run(["git", "-C", REPO, "show", "-R", "--format=", commit], stdout=subprocess.PIPE, text=True).stdout
+                    pf = os.path.join(repo, ".selftest-revert.diff")
+                    open(pf, "w").write(diff)
+                    ok, _ = git_apply(repo, pf)
+                    os.remove(pf)
+                    return ok
+
+                def files_of(commit):
+                    return set(subprocess.run(["git", "-C", REPO, "show", "--name-only", "--format=", commit], stdout=subprocess.PIPE, text=True).stdout.split())
+
+                ok = revert(h)
+                also = []
+                if not ok:
+                    # later fix commits on the same files are reverted first (newest first), then this one
+                    mine = files_of(h)
+                    for h2 in later_fixes(h):
+                        if files_of(h2) & mine:
+                            if revert(h2):
+                                also.append(h2)
+                    ok = revert(h)
+                if not ok:
+                    results.append((name, "skip", f"`{subj}`: reverse patch no longer applies (later commits touch the same lines)"))
+                    continue
+                if also:
+                    subj = subj + f" (together with later fix(es) {', '.join(also)} on the same lines)"
+                rc, out = run_check(pid, repo)
+                fails = [l.strip() for l in out.splitlines() if l.strip().startswith("FAIL")]
+                hit = [l for l in fails if any(k in l for k in keys)]
+                if rc == 1 and hit:
+                    results.append((name, "ok", f"with `{subj}` reverted, {pid} reports {len(hit)} of its {len(keys)} recorded key(s): {hit[0][:100]}"))
+                else:
+                    results.append((name, "FAIL", f"with `{subj}` reverted, {pid} exit {rc} and none of the recorded keys {keys[:3]} is reported"))
+                    ok_all = False
+            finally:
+                shutil.rmtree(repo, ignore_errors=True)
+    if want and not (want - {"regress", "benign"}):
+        seeds_only = False
+    else:
+        seeds_only = True
+    for name in sorted(os.listdir(seeds_dir)) if seeds_only else []:
         d = os.path.join(seeds_dir, name)
         if not os.path.isdir(d) or (want and name not in want):
             continue
